@@ -12,7 +12,7 @@ import (
 	"verifharness/internal/gen"
 )
 
-// C11 — errors accumulate in the table: none lost, none duplicated, none nil.
+// C11 - errors accumulate in the table: none lost, none duplicated, none nil.
 //
 // Monitor: conservation / exactly-once over unique ids.  Every error the
 // harness raises is a distinct errors.New value; the expected multiset per
